@@ -147,14 +147,10 @@ def run(ctx):
         r2.ok("Construct_local_matrix_system stores the trial state __z only")
     else:
         r2.fail(fc.qualname, "no-trial", fc.file, fc.lineno, "Construct_local_matrix_system", "the trial state returned by Integrate is not kept: Save_Iter would have nothing to commit")
-    # Save_Iter commits a copy of the trial state
+    # (that Save_Iter commits a COPY of the trial state used to be read off the text of the assignment - `.copy()` and
+    #  `self.__z` in it; it fired on a loop that fills two local dicts, refactored/C15-R5.  Decided by R19.25: the committed,
+    #  the stored and the trial state are equal and are three different arrays.)
     fs = sim.methods["Save_Iter"]
-    r2.instance(fn=fs.qualname)
-    commits = [n for a, n, k in self_stores(fs) if a == zold]
-    if commits and all(".copy()" in norm_text(n.value) and (z.replace("_InElastic", "self.") in norm_text(n.value) or "self.__z" in norm_text(n.value)) for n in commits):
-        r2.ok("Save_Iter: __zOld = copies of the trial state")
-    else:
-        r2.fail(fs.qualname, "commit-copy", fs.file, fs.lineno, "Save_Iter", "Save_Iter does not commit a copy of the trial state")
     # trial and committed containers never alias: assembly writes the trial container entry by entry, so a shared dict
     # (or shared arrays) lets a Newton iterate overwrite the committed history
     for name, f in sorted(sim.methods.items()):
